@@ -394,6 +394,404 @@ theorem close_ends_every_key (b : Broker κ α) (k : κ) (l : Nat) (it : Item α
   simp only [List.mem_map, List.mem_reverse]
   exact ⟨(k, l), hk, rfl⟩
 
+/-! ### `close()` in flight: the loop `while self._queue: _, q = popitem(); await q.aclose()` interleaved with other tasks -/
+
+/-- well-formedness of the dict: keys distinct, every lifetime id refers to an existing topic object, ids distinct -/
+structure DInv (b : Broker κ α) : Prop where
+  keys : (b.cur.map (·.1)).Nodup
+  bound : ∀ e ∈ b.cur, e.2 < b.items.length
+  ids : (b.cur.map (·.2)).Nodup
+
+omit [DecidableEq κ] in
+theorem dinv_init : DInv ({} : Broker κ α) := ⟨by simp, by simp, by simp⟩
+
+omit [DecidableEq κ] in
+theorem onItem_items_length (b : Broker κ α) (l : Nat) (op : Op α) :
+    (b.onItem l op).1.items.length = b.items.length := by
+  unfold Broker.onItem; cases b.items[l]? <;> simp
+
+omit [DecidableEq κ] in
+theorem onItem_handles (b : Broker κ α) (l : Nat) (op : Op α) :
+    (b.onItem l op).1.handles = b.handles := by
+  unfold Broker.onItem; cases b.items[l]? <;> rfl
+
+theorem dinv_onItem (b : Broker κ α) (l : Nat) (op : Op α) (h : DInv b) : DInv (b.onItem l op).1 :=
+  ⟨by rw [onItem_cur]; exact h.keys, by rw [onItem_cur, onItem_items_length]; exact h.bound,
+   by rw [onItem_cur]; exact h.ids⟩
+
+omit [DecidableEq κ] in
+theorem dinv_irrel {b : Broker κ α} (h : DInv b) (hd : List (Nat × Nat)) :
+    DInv { b with handles := hd } := ⟨h.keys, h.bound, h.ids⟩
+
+theorem lookup_eq_none {b : Broker κ α} {k : κ} (h : b.lookup k = none) : ∀ e ∈ b.cur, e.1 ≠ k := by
+  simpa [Broker.lookup] using h
+
+theorem lookup_some_mem {b : Broker κ α} {k : κ} {l : Nat} (h : b.lookup k = some l) : (k, l) ∈ b.cur := by
+  simp only [Broker.lookup, Option.map_eq_some_iff] at h
+  obtain ⟨e, he, rfl⟩ := h
+  have h1 := List.mem_of_find?_eq_some he
+  have h2 := List.find?_some he
+  simp at h2
+  subst h2
+  exact h1
+
+theorem dinv_touch (b : Broker κ α) (k : κ) (h : DInv b) : DInv (b.touch k).1 := by
+  unfold Broker.touch
+  cases hl : b.lookup k with
+  | some l => exact h
+  | none =>
+    have hn := lookup_eq_none hl
+    refine ⟨?_, ?_, ?_⟩
+    · simp only [List.map_append, List.map_cons, List.map_nil]
+      rw [List.nodup_append]
+      refine ⟨h.keys, by simp, ?_⟩
+      intro a ha b' hb'
+      simp only [List.mem_map] at ha
+      obtain ⟨e, he, rfl⟩ := ha
+      simp at hb'; subst hb'
+      exact hn e he
+    · intro e he
+      simp only [List.mem_append, List.mem_singleton] at he
+      simp only [List.length_append, List.length_cons, List.length_nil]
+      rcases he with he | rfl
+      · have := h.bound e he; omega
+      · simp
+    · simp only [List.map_append, List.map_cons, List.map_nil]
+      rw [List.nodup_append]
+      refine ⟨h.ids, by simp, ?_⟩
+      intro a ha b' hb'
+      simp only [List.mem_map] at ha
+      obtain ⟨e, he, rfl⟩ := ha
+      simp at hb'; subst hb'
+      have := h.bound e he; omega
+
+omit [DecidableEq κ] in
+theorem dinv_filter {b : Broker κ α} (h : DInv b) (p : κ × Nat → Bool) :
+    DInv { b with cur := b.cur.filter p } :=
+  ⟨h.keys.sublist (List.filter_sublist.map _), fun e he => h.bound e ((List.mem_filter.mp he).1),
+   h.ids.sublist (List.filter_sublist.map _)⟩
+
+theorem dinv_close_fold (ls : List Nat) (b : Broker κ α) (h : DInv b) :
+    DInv (ls.foldl (fun acc l => (acc.onItem l .aclose).1) b) := by
+  induction ls generalizing b with
+  | nil => exact h
+  | cons l ls ih => exact ih _ (dinv_onItem b l .aclose h)
+
+theorem dinv_bstep (b : Broker κ α) (op : BOp κ α) (h : DInv b) : DInv (bstep b op).1 := by
+  cases op with
+  | publish k a => exact dinv_onItem _ _ _ (dinv_touch b k h)
+  | latest k => exact dinv_touch b k h
+  | subscribe k last =>
+    simp only [bstep]
+    have h1 := dinv_touch b k h
+    cases hl : (b.touch k).1.items[(b.touch k).2]? with
+    | none => exact h1
+    | some it => exact dinv_irrel (dinv_onItem _ _ (.subNew last true) h1) _
+  | pull hd =>
+    simp only [bstep]
+    cases b.handles[hd]? with
+    | none => exact h
+    | some p => exact dinv_onItem _ _ _ h
+  | leave hd =>
+    simp only [bstep]
+    cases b.handles[hd]? with
+    | none => exact h
+    | some p => exact dinv_onItem _ _ _ h
+  | endKey k =>
+    simp only [bstep]
+    cases b.lookup k with
+    | none => exact h
+    | some l => exact dinv_onItem _ _ _ (dinv_filter h _)
+  | close =>
+    simp only [bstep]
+    exact dinv_close_fold _ _ ⟨by simp, by simp, by simp⟩
+
+theorem dinv_closeStep (b : Broker κ α) (h : DInv b) : DInv b.closeStep := by
+  unfold Broker.closeStep
+  split
+  · exact h
+  · exact dinv_onItem _ _ _ (dinv_filter h _)
+
+theorem dinv_cstep (b : Broker κ α) (c : CStep κ α) (h : DInv b) : DInv (cstep b c) := by
+  cases c with
+  | op o => exact dinv_bstep b o h
+  | closeStep => exact dinv_closeStep b h
+
+theorem dinv_csteps (b : Broker κ α) (cs : List (CStep κ α)) (h : DInv b) : DInv (csteps b cs) := by
+  induction cs generalizing b with
+  | nil => exact h
+  | cons c cs ih => exact ih _ (dinv_cstep b c h)
+
+theorem filter_ne_last (init : List (κ × Nat)) (k : κ) (l : Nat)
+    (h : ((init ++ [(k, l)]).map (·.1)).Nodup) :
+    (init ++ [(k, l)]).filter (fun e => decide (e.1 ≠ k)) = init := by
+  simp only [List.map_append, List.map_cons, List.map_nil] at h
+  rw [List.nodup_append] at h
+  obtain ⟨_, _, hd⟩ := h
+  rw [List.filter_append]
+  have h1 : init.filter (fun e => decide (e.1 ≠ k)) = init := by
+    rw [List.filter_eq_self]
+    intro e he
+    have := hd e.1 (List.mem_map.mpr ⟨e, he, rfl⟩) k (by simp)
+    simpa using this
+  rw [h1]; simp
+
+theorem closeStep_concat (b : Broker κ α) (init : List (κ × Nat)) (k : κ) (l : Nat)
+    (hcur : b.cur = init ++ [(k, l)]) (h : (b.cur.map (·.1)).Nodup) :
+    b.closeStep = ({ b with cur := init }.onItem l .aclose).1 := by
+  have hf := filter_ne_last init k l (hcur ▸ h)
+  unfold Broker.closeStep
+  rw [hcur, List.reverse_append]
+  simp only [List.reverse_cons, List.reverse_nil, List.nil_append, List.cons_append]
+  rw [hf]
+
+theorem closeSteps_eq_fold (n : Nat) : ∀ (b : Broker κ α), b.cur.length = n → (b.cur.map (·.1)).Nodup →
+    csteps b (List.replicate n CStep.closeStep) =
+      (b.cur.reverse.map (·.2)).foldl (fun acc l => (acc.onItem l .aclose).1) { b with cur := [] } := by
+  induction n with
+  | zero =>
+    intro b hn _
+    have : b.cur = [] := List.eq_nil_of_length_eq_zero hn
+    simp [csteps, this]
+    cases b; simp_all
+  | succ n ih =>
+    intro b hn hnd
+    rcases List.eq_nil_or_concat b.cur with h0 | ⟨init, e, hcur⟩
+    · rw [h0] at hn; simp at hn
+    · obtain ⟨k, l⟩ := e
+      have hcur' : b.cur = init ++ [(k, l)] := by simpa using hcur
+      have hcs := closeStep_concat b init k l hcur' hnd
+      have hlen : init.length = n := by rw [hcur'] at hn; simpa using hn
+      have hnd' : (init.map (·.1)).Nodup := by
+        rw [hcur'] at hnd
+        simp only [List.map_append] at hnd
+        exact (List.nodup_append.mp hnd).1
+      rw [List.replicate_succ]
+      show csteps (cstep b CStep.closeStep) _ = _
+      show csteps b.closeStep _ = _
+      rw [hcs, ih _ (by rw [onItem_cur]; exact hlen) (by rw [onItem_cur]; exact hnd')]
+      rw [onItem_cur, hcur']
+      simp only [List.reverse_append, List.reverse_cons, List.reverse_nil, List.nil_append,
+        List.cons_append, List.map_cons, List.foldl_cons]
+      congr 1
+      unfold Broker.onItem; cases b.items[l]? <;> rfl
+
+/-- the atomic `close` of the serial model is exactly what the loop does when nobody interferes -/
+theorem close_is_closeSteps (b : Broker κ α) (h : DInv b) :
+    csteps b (List.replicate b.cur.length CStep.closeStep) = (bstep b BOp.close).1 := by
+  rw [closeSteps_eq_fold _ b rfl h.keys]
+  rfl
+
+/-! closed stays closed -/
+
+theorem step_closed (it : Item α) (op : Op α) (hc : it.closed = true) : (step it op).1.closed = true := by
+  cases op with
+  | publish a => simp [step, hc]
+  | clear => simp [step, hc]
+  | aclose => simp [step, hc]
+  | subNew l c => simpa [step] using hc
+  | pull i => simp only [step]; cases it.subs[i]? <;> exact hc
+  | leave i => simp only [step]; cases it.subs[i]? <;> exact hc
+
+omit [DecidableEq κ] in
+theorem onItem_closed (b : Broker κ α) (l : Nat) (op : Op α) (m : Nat) (it : Item α)
+    (h : b.items[m]? = some it) (hc : it.closed = true) :
+    ∃ it', (b.onItem l op).1.items[m]? = some it' ∧ it'.closed = true := by
+  unfold Broker.onItem
+  cases hl : b.items[l]? with
+  | none => exact ⟨it, h, hc⟩
+  | some it0 =>
+    have hlt : l < b.items.length := (List.getElem?_eq_some_iff.mp hl).1
+    by_cases hml : m = l
+    · subst hml
+      rw [h] at hl; cases hl
+      exact ⟨(step it op).1, by simp [hlt], step_closed it op hc⟩
+    · exact ⟨it, by simp [Ne.symm hml, h], hc⟩
+
+theorem touch_items_get (b : Broker κ α) (k : κ) (m : Nat) (it : Item α) (h : b.items[m]? = some it) :
+    (b.touch k).1.items[m]? = some it := by
+  unfold Broker.touch
+  cases b.lookup k with
+  | some l => exact h
+  | none =>
+    have hlt : m < b.items.length := (List.getElem?_eq_some_iff.mp h).1
+    simp only [List.getElem?_append_left hlt, h]
+
+theorem touch_cur_mem (b : Broker κ α) (k : κ) (e : κ × Nat) (h : e ∈ b.cur) : e ∈ (b.touch k).1.cur := by
+  unfold Broker.touch
+  cases b.lookup k with
+  | some l => exact h
+  | none => simp [h]
+
+theorem bstep_closed (b : Broker κ α) (o : BOp κ α) (l : Nat) (it : Item α)
+    (hit : b.items[l]? = some it) (hc : it.closed = true) :
+    ∃ it', (bstep b o).1.items[l]? = some it' ∧ it'.closed = true := by
+  cases o with
+  | publish k a => exact onItem_closed _ _ _ l it (touch_items_get b k l it hit) hc
+  | latest k => exact ⟨it, touch_items_get b k l it hit, hc⟩
+  | subscribe k last =>
+    simp only [bstep]
+    have h1 := touch_items_get b k l it hit
+    cases hl : (b.touch k).1.items[(b.touch k).2]? with
+    | none => exact ⟨it, h1, hc⟩
+    | some it0 => exact onItem_closed _ _ (.subNew last true) l it h1 hc
+  | pull hd =>
+    simp only [bstep]
+    cases b.handles[hd]? with
+    | none => exact ⟨it, hit, hc⟩
+    | some p => exact onItem_closed _ _ _ l it hit hc
+  | leave hd =>
+    simp only [bstep]
+    cases b.handles[hd]? with
+    | none => exact ⟨it, hit, hc⟩
+    | some p => exact onItem_closed _ _ _ l it hit hc
+  | endKey k =>
+    simp only [bstep]
+    cases b.lookup k with
+    | none => exact ⟨it, hit, hc⟩
+    | some l' => exact onItem_closed _ _ _ l it hit hc
+  | close =>
+    simp only [bstep]
+    exact close_fold_closed _ { b with cur := [] } l it hit (Or.inl hc)
+
+theorem closeStep_closed (b : Broker κ α) (l : Nat) (it : Item α)
+    (hit : b.items[l]? = some it) (hc : it.closed = true) :
+    ∃ it', b.closeStep.items[l]? = some it' ∧ it'.closed = true := by
+  unfold Broker.closeStep
+  split
+  · exact ⟨it, hit, hc⟩
+  · exact onItem_closed _ _ _ l it hit hc
+
+/-- an ended topic object stays ended, whatever happens next -/
+theorem closed_stays_closed (b : Broker κ α) (c : CStep κ α) (l : Nat) (it : Item α)
+    (hit : b.items[l]? = some it) (hc : it.closed = true) :
+    ∃ it', (cstep b c).items[l]? = some it' ∧ it'.closed = true := by
+  cases c with
+  | op o => exact bstep_closed b o l it hit hc
+  | closeStep => exact closeStep_closed b l it hit hc
+
+theorem closed_stays_closed_csteps (cs : List (CStep κ α)) (b : Broker κ α) (l : Nat) (it : Item α)
+    (hit : b.items[l]? = some it) (hc : it.closed = true) :
+    ∃ it', (csteps b cs).items[l]? = some it' ∧ it'.closed = true := by
+  induction cs generalizing b it with
+  | nil => exact ⟨it, hit, hc⟩
+  | cons c cs ih =>
+    obtain ⟨it', h', hc'⟩ := closed_stays_closed b c l it hit hc
+    exact ih _ it' h' hc'
+
+/-! a key leaves the dict only closed -/
+
+omit [DecidableEq κ] in
+theorem nodup_keys_unique {cur : List (κ × Nat)} (h : (cur.map (·.1)).Nodup) {k : κ} {l l' : Nat}
+    (h1 : (k, l) ∈ cur) (h2 : (k, l') ∈ cur) : l = l' := by
+  induction cur with
+  | nil => simp at h1
+  | cons e t ih =>
+    simp only [List.map_cons, List.nodup_cons, List.mem_map, not_exists, not_and] at h
+    obtain ⟨hne, hnd⟩ := h
+    simp only [List.mem_cons] at h1 h2
+    rcases h1 with h1 | h1 <;> rcases h2 with h2 | h2
+    · rw [← h1] at h2; cases h2; rfl
+    · exact absurd rfl (h1 ▸ hne (k, l') h2)
+    · exact absurd rfl (h2 ▸ hne (k, l) h1)
+    · exact ih hnd h1 h2
+
+/-- popping key `k'` (first occurrence ↦ `l'`) and closing `l'`: an entry that disappears is that one, and it is closed -/
+theorem pop_closed (b : Broker κ α) (h : DInv b) (k' : κ) (l' : Nat) (hk' : (k', l') ∈ b.cur)
+    (k : κ) (l : Nat) (hk : (k, l) ∈ b.cur)
+    (hgone : (k, l) ∉ ({ b with cur := b.cur.filter fun e => e.1 ≠ k' }.onItem l' .aclose).1.cur) :
+    ∃ it, ({ b with cur := b.cur.filter fun e => e.1 ≠ k' }.onItem l' .aclose).1.items[l]? = some it ∧
+      it.closed = true := by
+  rw [onItem_cur] at hgone
+  have hkk : k = k' := by
+    false_or_by_contra
+    rename_i hne
+    exact hgone (List.mem_filter.mpr ⟨hk, by simpa using hne⟩)
+  subst hkk
+  have hll : l = l' := nodup_keys_unique h.keys hk hk'
+  subst hll
+  have hlt := h.bound _ hk
+  exact onItem_aclose_closed _ l l b.items[l] (by simp [hlt]) (Or.inr rfl)
+
+/-- a key leaves the dict only with its item closed — for every operation and for a loop iteration -/
+theorem left_dict_closed (b : Broker κ α) (h : DInv b) (c : CStep κ α) (k : κ) (l : Nat)
+    (hk : (k, l) ∈ b.cur) (hgone : (k, l) ∉ (cstep b c).cur) :
+    ∃ it, (cstep b c).items[l]? = some it ∧ it.closed = true := by
+  have hlt : l < b.items.length := h.bound _ hk
+  cases c with
+  | closeStep =>
+    simp only [cstep] at hgone ⊢
+    cases hrev : b.cur.reverse with
+    | nil =>
+      have : b.closeStep = b := by simp only [Broker.closeStep, hrev]
+      rw [this] at hgone; exact absurd hk hgone
+    | cons e rest =>
+      obtain ⟨k', l'⟩ := e
+      have hk' : (k', l') ∈ b.cur := by
+        have : (k', l') ∈ b.cur.reverse := by rw [hrev]; simp
+        simpa using this
+      have : b.closeStep = ({ b with cur := b.cur.filter fun e => e.1 ≠ k' }.onItem l' .aclose).1 := by
+        simp only [Broker.closeStep, hrev]
+      rw [this] at hgone ⊢
+      exact pop_closed b h k' l' hk' k l hk hgone
+  | op o =>
+    simp only [cstep] at hgone ⊢
+    cases o with
+    | publish k' a =>
+      exact absurd (by simp only [bstep]; rw [onItem_cur]; exact touch_cur_mem b k' _ hk) hgone
+    | latest k' => exact absurd (touch_cur_mem b k' _ hk) hgone
+    | subscribe k' last =>
+      exfalso; apply hgone
+      simp only [bstep]
+      cases hl : (b.touch k').1.items[(b.touch k').2]? with
+      | none => exact touch_cur_mem b k' _ hk
+      | some it0 => show (k, l) ∈ (Broker.onItem _ _ _).1.cur; rw [onItem_cur]; exact touch_cur_mem b k' _ hk
+    | pull hd =>
+      exfalso; apply hgone
+      simp only [bstep]
+      cases b.handles[hd]? with
+      | none => exact hk
+      | some p => simp only [onItem_cur]; exact hk
+    | leave hd =>
+      exfalso; apply hgone
+      simp only [bstep]
+      cases b.handles[hd]? with
+      | none => exact hk
+      | some p => simp only [onItem_cur]; exact hk
+    | endKey k' =>
+      simp only [bstep] at hgone ⊢
+      cases hl : b.lookup k' with
+      | none => rw [hl] at hgone; exact absurd hk hgone
+      | some l' =>
+        rw [hl] at hgone
+        exact pop_closed b h k' l' (lookup_some_mem hl) k l hk hgone
+    | close =>
+      exact (close_ends_every_key b k l b.items[l] hk (by simp [hlt])).2
+
+/-- whatever other tasks do between the iterations of `close()`'s loop: when the loop's exit condition holds, every
+key that was in the dict has been closed -/
+theorem close_in_flight_ends_every_key (b : Broker κ α) (h : DInv b) (cs : List (CStep κ α)) (k : κ) (l : Nat)
+    (hk : (k, l) ∈ b.cur) (hend : (csteps b cs).cur = []) :
+    ∃ it, (csteps b cs).items[l]? = some it ∧ it.closed = true := by
+  induction cs generalizing b with
+  | nil => simp only [csteps, List.foldl_nil] at hend; rw [hend] at hk; simp at hk
+  | cons c cs ih =>
+    by_cases hin : (k, l) ∈ (cstep b c).cur
+    · exact ih (cstep b c) (dinv_cstep b c h) hin hend
+    · obtain ⟨it, hit, hc⟩ := left_dict_closed b h c k l hk hin
+      exact closed_stays_closed_csteps cs (cstep b c) l it hit hc
+
+/-- … and so has every key created while `close()` was in flight -/
+theorem close_in_flight_ends_later_keys (b : Broker κ α) (h : DInv b) (cs₁ cs₂ : List (CStep κ α)) (k : κ) (l : Nat)
+    (hk : (k, l) ∈ (csteps b cs₁).cur) (hend : (csteps (csteps b cs₁) cs₂).cur = []) :
+    ∃ it, (csteps (csteps b cs₁) cs₂).items[l]? = some it ∧ it.closed = true :=
+  close_in_flight_ends_every_key _ (dinv_csteps b cs₁ h) cs₂ k l hk hend
+
+
+/-- an iteration of the loop on an empty dict does nothing (the loop has exited) -/
+theorem closeStep_empty (b : Broker κ α) (h : b.cur = []) : b.closeStep = b := by
+  simp only [Broker.closeStep, h, List.reverse_nil]
+
 /-! ### Non-vacuity: concrete states meeting the hypotheses above -/
 
 /-- two publications, a joiner with `last`, a third publication, end: the joiner is live with a
@@ -407,5 +805,22 @@ example : ((run (Item.new false) demoOps).subs[0]?).map (·.got) = some [2] := b
 example : ((pulls (run (Item.new false) demoOps) 0 2).subs[0]?).map (fun q => (q.phase, q.got))
     = some (Phase.done, [2, 3]) := by decide
 example : ((run (Item.new true) demoOps).subs[0]?).map (·.base) = some [1, 2] := by decide
+
+/-! `close()` in flight: key 3 is subscribed to (and published on) between two iterations of the loop and is
+still closed when the loop exits; `closeStep` on the empty dict does nothing -/
+def lateRun : List (CStep Nat Nat) :=
+  [.op (.subscribe 1 true), .op (.subscribe 2 true), .closeStep, .op (.subscribe 3 true), .op (.publish 3 7),
+   .closeStep, .closeStep]
+
+example : (csteps ({} : Broker Nat Nat) (lateRun.take 3)).cur = [(1, 0)] := by decide
+example : (csteps ({} : Broker Nat Nat) (lateRun.take 5)).cur = [(1, 0), (3, 2)] := by decide
+example : ((csteps ({} : Broker Nat Nat) (lateRun.take 5)).items[2]?).map (·.closed) = some false := by decide
+example : (csteps ({} : Broker Nat Nat) lateRun).cur = [] := by decide
+example : ((csteps ({} : Broker Nat Nat) lateRun).items[2]?).map (fun it => (it.closed, it.log)) = some (true, [7]) := by
+  decide
+example : (csteps ({} : Broker Nat Nat) lateRun).items.map (·.closed) = [true, true, true] := by decide
+example : (({} : Broker Nat Nat).closeStep.cur, ({} : Broker Nat Nat).closeStep.items.length,
+    ({} : Broker Nat Nat).closeStep.handles) = ([], 0, []) := by decide
+example : (cstep ({} : Broker Nat Nat) .closeStep).cur = [] := by decide
 
 end NLV.C08
